@@ -150,12 +150,18 @@ def execute(ctx, case):
     C(nbp in (math.floor(qp), math.floor(qp + 1e-9 * max(qp, 1.0))), "from_metrics: number of positives is not fnr_support / fnr", "data-fm-pos", **wm, nb_pos=nbp, quotient=qp)
     C(nbn in (math.floor(qn), math.floor(qn + 1e-9 * max(qn, 1.0))), "from_metrics: number of negatives is not fpr_support / fpr", "data-fm-neg", **wm, nb_neg=nbn, quotient=qn)
     C(str(getattr(d2.score_class, "value", d2.score_class)) == "pos" and d2.sigma_pos == sp2 and d2.sigma_neg == sn2, "from_metrics: wrong score_class or sigmas", "data-fm-cfg")
+    d2d = NormalDataset.from_metrics(fnr, fpr, fs, fps)  # sigmas left out: both 1.0, as documented
+    C(d2d == NormalDataset.from_metrics(fnr, fpr, fs, fps, sigma_pos=1.0, sigma_neg=1.0) and d2d.sigma_pos == 1.0 and d2d.sigma_neg == 1.0
+      and math.isclose(d2d.fnr(0.0), fnr, rel_tol=1e-9) and math.isclose(d2d.fpr(0.0), fpr, rel_tol=1e-9), "from_metrics with the sigmas left out differs from sigma 1.0 spelled out", "data-fm-defaults", **wm)
     smp = d2.sample(rng=np.random.default_rng(case["_seed"]))
     smp_b = d2.sample(rng=np.random.default_rng(case["_seed"]))
     C(len(smp.pos) + len(smp.neg) == d2.n and smp.score_class.value == "pos" and smp == smp_b, "sample(): wrong size/score_class or not reproducible for a fixed rng", "data-sample")
     dn = NormalDataset(mu_pos=mu_p, mu_neg=mu_n, sigma_pos=sp, sigma_neg=sn, score_class=sc, n=23, p_pos=0.25)
     smp = dn.sample(rng=np.random.default_rng(5))
     C(len(smp.pos) + len(smp.neg) == 23, "sample(): n given in the constructor is not used", "data-sample-ctor-n")
+    smp41, smp_pp = dn.sample(n=41, rng=np.random.default_rng(5)), dn.sample(p_pos=1.0, rng=np.random.default_rng(5))
+    C(len(smp41.pos) + len(smp41.neg) == 41 and len(smp_pp.pos) == 23 and len(smp_pp.neg) == 0, "sample(): an explicit n / p_pos does not win over the one stored on the dataset", "data-sample-explicit-wins",
+      got=[len(smp41.pos) + len(smp41.neg), len(smp_pp.pos), len(smp_pp.neg)])
     smp = ds.sample(n=37, rng=np.random.default_rng(1))
     C(len(smp.pos) + len(smp.neg) == 37 and smp.score_class.value == sc and smp.nb_easy_pos == 0 and smp.nb_easy_neg == 0, "sample(n=37): wrong size or score_class", "data-sample-n")
     s1 = ds.sample(n=50, p_pos=1.0, rng=np.random.default_rng(2))
@@ -168,7 +174,18 @@ def execute(ctx, case):
         C(abs(zp) < 7 and abs(zn) < 7, "sample(): class means are not the model's (7 sigma)", "data-sample-means", z_pos=zp, z_neg=zn)
     # ---- Bernoulli ------------------------------------------------------------------------------------------
     p, nn = case["p"], case["n"]
-    d = BernoulliDataset(p=p).sample(nn, random=False, rng=np.random.default_rng(2))
+    # where the size comes from is part of the documented interface: sample(n), the dataset's own n, or both (the explicit one wins)
+    size_form = (case["_seed"] // 7) % 4
+    n_other = [k_ for k_ in (1, nn + 13, 7, 1000) if k_ != nn][(case["_seed"] // 28) % 3]
+
+    def draw(cls_, kw_, n_, **skw):
+        if size_form in (0, 1):
+            return cls_(**kw_).sample(n_, **skw)
+        if size_form == 2:
+            return cls_(**kw_, n=n_).sample(**skw)
+        return cls_(**kw_, n=n_other).sample(n=n_, **skw)
+
+    d = draw(BernoulliDataset, dict(p=p), nn, random=False, rng=np.random.default_rng(2))
     k = int(d.sum())
     C(d.shape == (nn,) and set(np.unique(d).tolist()) <= {0, 1}, "Bernoulli non-random sample: wrong shape or values", "data-bern-shape", p=p, n=nn)
     C(k <= nn * p * (1 + 1e-12) + 1e-9 and k > nn * p - 1 - 1e-9, "Bernoulli non-random sample: successes != floor(n*p)", "data-bern-count", p=p, n=nn, k=k)
@@ -180,7 +197,7 @@ def execute(ctx, case):
             ex = Fraction(pb) * nb
             C(abs(kb - math.floor(ex)) <= (1 if min(ex - math.floor(ex), math.ceil(ex) - ex) < Fraction(1, 10 ** 6) else 0),
               "Bernoulli non-random sample (large n): successes != floor(n*p)", "data-bern-count-large", p=pb, n=nb, k=kb, exact=float(ex))
-    dr = BernoulliDataset(p=p, n=nn).sample(rng=np.random.default_rng(2))
+    dr = BernoulliDataset(p=p, n=nn).sample(rng=np.random.default_rng(2)) if size_form != 3 else BernoulliDataset(p=p, n=n_other).sample(n=nn, rng=np.random.default_rng(2))
     C(dr.shape == (nn,) and set(np.unique(dr).tolist()) <= {0, 1} and (p not in (0.0, 1.0) or int(dr.sum()) == int(p * nn)), "Bernoulli random sample: wrong shape/values", "data-bern-random", p=p, n=nn)
     # ---- correlated pair --------------------------------------------------------------------------------------
     p1, p2 = (float(x) for x in case["p12"])
@@ -194,11 +211,11 @@ def execute(ctx, case):
     else:
         trials = [(hi + 1e-3 + 0.5 * u[1], False), (lo - 1e-3 - 0.5 * u[2], False)]
     for rho, valid in trials:
-        dd = CorrelatedBernoullilDataset(p1=p1, p2=p2, rho=float(rho))
-        wc = dict(p1=p1, p2=p2, rho=float(rho), feasible=[lo, hi], n=nn)
+        ddk = dict(p1=p1, p2=p2, rho=float(rho))
+        wc = dict(p1=p1, p2=p2, rho=float(rho), feasible=[lo, hi], n=nn, size_form=size_form, n_other=n_other)
         try:
-            x = dd.sample(nn, random=False, rng=np.random.default_rng(3))
-            xr = dd.sample(nn, random=True, rng=np.random.default_rng(3))
+            x = draw(CorrelatedBernoullilDataset, ddk, nn, random=False, rng=np.random.default_rng(3))
+            xr = draw(CorrelatedBernoullilDataset, ddk, nn, random=True, rng=np.random.default_rng(3))
         except ValueError as e:
             C(not valid, "correlated pair: ValueError for a feasible rho", "data-corr-raise-valid", **wc, exc=repr(e))
             continue
